@@ -202,7 +202,15 @@ fn world(rng: &mut StdRng) -> World {
         sec: [rd(rng), rd(rng)],
         tc: {
             let a = [rng.gen::<u32>() as u64, rng.gen::<u32>() as u64];
-            let b = match rng.gen_range(0..3) { 0 => [a[0] ^ 1, a[1]], 1 => [a[0], a[1] ^ 1], _ => [rng.gen::<u32>() as u64, rng.gen::<u32>() as u64] };
+            // the second count: one limb differs, both differ, or the two limbs are another pair of field elements that
+            // RECOMBINES to the same 64-bit value (hi - k, lo + k * 2^32): equal as a number, different as a hash preimage
+            let b = match rng.gen_range(0..5) {
+                0 => [a[0] ^ 1, a[1]],
+                1 => [a[0], a[1] ^ 1],
+                2 => [(a[0] + P - 1) % P, a[1] + (1u64 << 32)],
+                3 => [a[0] + 1, (a[1] + P - (1u64 << 32)) % P],
+                _ => [rng.gen::<u32>() as u64, rng.gen::<u32>() as u64],
+            };
             [a, b]
         },
         fx,
@@ -416,7 +424,7 @@ fn mutate(rng: &mut StdRng, w: &mut Wit) -> String {
         // near misses: every constraint but ONE holds
         "split-secret+nullifier-follows", "split-count-lo+nullifier-follows", "split-count-hi+nullifier-follows", "troot-unrelated+bhash-follows",
         "root-unrelated+troot+bhash-follow", "foreign-to+aid+nullifier-keeps", "solve-out1", "solve-out2", "solve-in", "solve-fee",
-        "depth17+root-follows", "pos4-inactive-only", "pos5-active+root-follows", "flag0+sibling-changed", "flag0+leaf-foreign-path",
+        "depth17+root-follows", "pos4-inactive-only", "pos5-active+root-follows", "flag0+sibling-changed", "flag0+leaf-foreign-path", "count-limb-alias+nullifier-follows", "count-limb-alias-neg+nullifier-follows",
     ];
     let m = muts[rng.gen_range(0..muts.len())];
     let d = w.depth as usize;
@@ -485,6 +493,8 @@ fn mutate(rng: &mut StdRng, w: &mut Wit) -> String {
             w.depth = 17;
         }
         "pos4-inactive-only" => { if d < MAXD { w.pos[MAXD - 1] = 4 } }
+        "count-limb-alias+nullifier-follows" => { w.ntc = [(w.ntc[0] + P - 1) % P, w.ntc[1] + (1u64 << 32)]; w.nhash = nullifier(&w.nsec, &w.ntc); }
+        "count-limb-alias-neg+nullifier-follows" => { w.ntc = [w.ntc[0] + 1, (w.ntc[1] + P - (1u64 << 32)) % P]; w.nhash = nullifier(&w.nsec, &w.ntc); }
         "flag0+sibling-changed" => { w.flag = Some(0); let l = rng.gen_range(0..MAXD); w.sibs[l][0][1] ^= 1; }
         "flag0+leaf-foreign-path" => { w.flag = Some(0); for l in 0..MAXD { w.sibs[l] = [rd(rng), rd(rng), rd(rng)]; } }
         "pos5-active+root-follows" => {
